@@ -1,162 +1,7 @@
-// Conformance driver for spec/utility/Observers.tla (property C19, observers).
-// Interprets the actions of the specification on real rkcommon Observable /
-// Observer objects and reports what wasNotified() returned.  It never decides:
-// expected values come from TLC (replay) or the observations are validated by
-// TLC (ObserversTrace).
-//
-// Objects live on the heap (new / delete), so that construction and destruction
-// are actions of the history and a dangling registration is a heap-use-after-free
-// that ASan turns into a crash event.  The driver keeps only its own books of
-// which slot is occupied; an action that cannot legally be performed on the real
-// objects (occupied / empty slot) is refused with {"skipped":true}, which the
-// trace specification accepts only if its own guard is false as well.
-//
-// Every destruction is an action of the history (DestroyObservable,
-// DestroyObserver, Teardown{order} = everything alive, observers first or
-// observables first), so a crash is attributed to the step that caused it.
-// Objects still alive when the history ends are deliberately not destroyed.
-//
-// input line keys besides "h": "nw" (observer slots, for PollAll), "variant"
-// ("plain": stand-alone objects; "derived": Observable as a base class and the
-// Observer as a member, the two uses Observer.h describes).
-#include <memory>
-#include <string>
-#include <vector>
-#include "driver.h"
-#include "rkcommon/utility/Observer.h"
-
-using rkcommon::utility::Observable;
-using rkcommon::utility::Observer;
-using vj::Json;
-
-// the "base class" use: something that is an Observable and has state of its own
-struct Subject : public Observable
-{
-  std::vector<int> payload;
-  Subject() : payload(7, 42) {}
-  ~Subject() override {}
-};
-
-// the "member" use: something that holds an Observer
-struct Holder
-{
-  int before{1};
-  Observer observer;
-  int after{2};
-  explicit Holder(Observable &o) : observer(o) {}
-};
-
-struct World
-{
-  static const int MAXS = 8;
-  int nw{3};
-  bool derived{false};
-  Observable *subj[MAXS + 1];
-  Observer *plainObs[MAXS + 1];
-  Holder *holder[MAXS + 1];
-
-  explicit World(const Json &hist)
-  {
-    for (int i = 0; i <= MAXS; ++i) { subj[i] = nullptr; plainObs[i] = nullptr; holder[i] = nullptr; }
-    if (hist.has("nw")) nw = (int)hist["nw"].num();
-    if (nw > MAXS) nw = MAXS;
-    derived = hist.has("variant") && hist["variant"].str() == "derived";
-  }
-
-  bool watcherAlive(int b) const { return plainObs[b] != nullptr || holder[b] != nullptr; }
-  Observer &watcher(int b) { return holder[b] ? holder[b]->observer : *plainObs[b]; }
-  void destroyWatcher(int b)
-  {
-    delete plainObs[b];
-    plainObs[b] = nullptr;
-    delete holder[b];
-    holder[b] = nullptr;
-  }
-  void destroySubject(int o)
-  {
-    delete subj[o];   // virtual destructor
-    subj[o] = nullptr;
-  }
-
-  ~World() {}   // what is left alive is leaked on purpose: destructions are actions of the history
-
-  bool anythingAlive() const
-  {
-    for (int i = 1; i <= MAXS; ++i)
-      if (subj[i] || watcherAlive(i)) return true;
-    return false;
-  }
-
-  static Json skipped()
-  {
-    Json o = Json::object();
-    o.set("skipped", true);
-    return o;
-  }
-  static bool slotOk(long long i) { return i >= 1 && i <= MAXS; }
-
-  Json step(const Json &act)
-  {
-    const std::string &a = act["a"].str();
-    const Json &arg = act["arg"];
-    Json out = Json::object();
-    if (a == "CreateObservable") {
-      long long o = arg["o"].num();
-      if (!slotOk(o) || subj[o]) return skipped();
-      subj[o] = derived ? new Subject() : new Observable();
-      out.set("ret", "void");
-    } else if (a == "CreateObserver") {
-      long long b = arg["b"].num(), o = arg["o"].num();
-      if (!slotOk(b) || !slotOk(o) || watcherAlive((int)b) || !subj[o]) return skipped();
-      if (derived) holder[b] = new Holder(*subj[o]);
-      else plainObs[b] = new Observer(*subj[o]);
-      out.set("ret", "void");
-    } else if (a == "Notify") {
-      long long o = arg["o"].num();
-      if (!slotOk(o) || !subj[o]) return skipped();
-      subj[o]->notifyObservers();
-      out.set("ret", "void");
-    } else if (a == "Poll") {
-      long long b = arg["b"].num();
-      if (!slotOk(b) || !watcherAlive((int)b)) return skipped();
-      bool r = watcher((int)b).wasNotified();
-      out.set("ret", r);
-    } else if (a == "PollAll") {
-      bool any = false;
-      for (int b = 1; b <= nw; ++b) any = any || watcherAlive(b);
-      if (!any) return skipped();
-      Json r = Json::array();
-      for (int b = 1; b <= nw; ++b) {
-        if (!watcherAlive(b)) r.push(Json(-1));
-        else r.push(Json(watcher(b).wasNotified() ? 1 : 0));
-      }
-      out.set("ret", r);
-    } else if (a == "DestroyObservable") {
-      long long o = arg["o"].num();
-      if (!slotOk(o) || !subj[o]) return skipped();
-      destroySubject((int)o);
-      out.set("ret", "void");
-    } else if (a == "DestroyObserver") {
-      long long b = arg["b"].num();
-      if (!slotOk(b) || !watcherAlive((int)b)) return skipped();
-      destroyWatcher((int)b);
-      out.set("ret", "void");
-    } else if (a == "Teardown") {
-      const std::string &order = arg["order"].str();
-      if ((order != "observers_first" && order != "observables_first") || !anythingAlive()) return skipped();
-      if (order == "observables_first")
-        for (int o = 1; o <= MAXS; ++o) if (subj[o]) destroySubject(o);
-      for (int b = 1; b <= MAXS; ++b) if (watcherAlive(b)) destroyWatcher(b);
-      for (int o = 1; o <= MAXS; ++o) if (subj[o]) destroySubject(o);
-      out.set("ret", "void");
-    } else {
-      out.set("ret", "unknown-action");
-    }
-    return out;
-  }
-};
+// Conformance driver for spec/utility/Observers.tla (property C19, observers): see world.h
+#include "world.h"
 
 int main(int argc, char **argv)
 {
-  return vdrv::run<World>(argc, argv);
+  return vdrv::run<ObserversWorld>(argc, argv);
 }
